@@ -166,8 +166,13 @@ End Ring.
 Definition fnv128_offset : N := 144066263297769815596495629667062367629%N.
 Definition fnv128_prime : N := 309485009821345068724781371%N.
 Definition two128 : N := 340282366920938463463374607431768211456%N.
-Definition fnv128a (s : str) : N :=
-  fold_left (fun h c => ((N.lxor h c) * fnv128_prime) mod two128)%N s fnv128_offset.
+(* one round: xor the byte in, multiply by the prime 2^88 + 0x13b modulo 2^128
+   (written with shift/mask so that the extracted code is fast;
+   RingProofs.fnv_step_eq: = ((h xor c) * fnv128_prime) mod 2^128) *)
+Definition fnv_step (h c : N) : N :=
+  let x := N.lxor h c in
+  N.land (N.shiftl x 88 + 315 * x)%N (N.ones 128).
+Definition fnv128a (s : str) : N := fold_left fnv_step s fnv128_offset.
 
 (* big-endian bytes of v, [n] of them (hash.Sum appends big-endian) *)
 Fixpoint be_bytes (n : nat) (v : N) : str :=
